@@ -421,5 +421,29 @@ def run(P, tier="quick"):
                 R.violated(Finding("R28", PROPS, FILE, f.name, "setup-z0-mode", "z0 copy must use set_z0_vector when "
                                    "VF_PER_F_Z0 is clear and set_fz0_vector for every findex < vd_frequencies when set",
                                    zs[0].line))
+    # --- in-place safety: the output may be the input object, so its dimension/type fields may only be
+    #     changed after the last conversion call (the dispatch arms read vd_rows/vd_frequencies of the input)
+    dim_fields = ("vd_rows", "vd_columns", "vd_frequencies", "vd_type")
+    disp_calls = [c for (t, c, l) in arminfo.values() if c is not None]
+    for n in f.walk():
+        if n.k == "BinaryOperator" and n.op == "=":
+            l = n.kids[0].strip()
+            if l.k == "MemberExpr" and l.member in dim_fields and CN.path(l.kids[0]) == "$1":
+                pos = f.cfg.pos_of(n)
+                late = True
+                for c in disp_calls:
+                    cp = f.cfg.pos_of(c)
+                    if pos is None or cp is None:
+                        continue
+                    if cp[0] in f.cfg.reachable_from(pos[0]) or (cp[0] == pos[0] and cp[1] > pos[1]):
+                        late = False
+                key = "R28|store-after-dispatch:%s" % l.member
+                # the memcpy branch for equal types also sets vd_type: only stores that can be followed by a dispatch matter
+                if late:
+                    R.ok(key + "@%s" % ("same-type" if "newtype" in n.kids[1].text() and False else l.member))
+                else:
+                    R.violated(Finding("R28", PROPS, FILE, f.name, "store-before-dispatch:" + l.member,
+                                       "%s is assigned at line %d before the conversion loops run: for an in-place conversion "
+                                       "(vdp_out == vdp_in) the dispatch arms then read the new value" % (l.text(), n.line), n.line))
     R.check_floor()
     return R
